@@ -516,6 +516,9 @@ func (x *Exec) atReturn(fr *Frame, c *Contract, entry, st *State, params, result
 				default:
 					specFail("fresh of %T", v.V)
 				}
+				if cl.Expr != nil {
+					g = tb.Implies(ec.Bool(cl.Expr), g)
+				}
 				x.addObl(st, fmt.Sprintf("%s/fresh(%s)", x.key, fe), "ensures", g, token.NoPos, cl.Labels)
 			}); err != nil {
 				x.contractError(err)
